@@ -4,11 +4,13 @@ package main
 
 import (
 	"verif/harness/engines/c25"
+	"verif/harness/engines/c26"
 	"verif/harness/sim"
 )
 
 func main() {
 	sim.WorkerMain(map[string]func() sim.Engine{
 		"C25": c25.New,
+		"C26": c26.New,
 	})
 }
